@@ -13,6 +13,7 @@ definiteness, real positive eigenvalues of the interdiffusivity, positivity of t
 import KawinV.Model.MobMatrix
 import KawinV.Model.DMuDX
 import KawinV.Gen.C10Tracer
+import KawinV.Model.MobTable
 import Mathlib.Tactic.Ring
 import Mathlib.Tactic.Linarith
 import Mathlib.Tactic.FieldSimp
@@ -645,6 +646,222 @@ theorem darken_pos (xk xR Dk DR G2 Rg T : α) (hxk : 0 < xk) (hxR : 0 < xR) (hDk
 
 end darkenpos
 
+/-! ### user-supplied callable tables: setMobility / setDiffusivity histories
+
+`KawinV.MobTable` models `mobCallables[phase]` / `diffCallables[phase]` as finite maps element ↦ function id
+and the three ways of writing them.  Proved for every history, every dict, every interpretation `F` of the
+function ids over any field: after `setMobility(d, phase)` every element reads ITS OWN entry, a later write
+of one element wins and touches no other element, and the reported tracer diffusivity is `R·T·M_e(T)` of the
+function given FOR e — it depends on the temperature and on that function only. -/
+
+section table
+open KawinV.MobTable
+
+theorem upd_same (t : Tab) (e f : Nat) : upd t e f e = some f := by simp [upd]
+theorem upd_other (t : Tab) (e f x : Nat) (h : x ≠ e) : upd t e f x = t x := by simp [upd, h]
+
+theorem foldl_upd_notin (d : List (Nat × Nat)) (t : Tab) (x : Nat) (h : ∀ p ∈ d, p.1 ≠ x) :
+    d.foldl (fun t p => upd t p.1 p.2) t x = t x := by
+  induction d generalizing t with
+  | nil => rfl
+  | cons p r ih =>
+    simp only [List.foldl_cons]
+    rw [ih _ (fun q hq => h q (List.mem_cons_of_mem _ hq))]
+    exact upd_other t p.1 p.2 x (fun hx => h p List.mem_cons_self hx.symm)
+
+theorem foldl_upd_mem (d : List (Nat × Nat)) (t : Tab) (e f : Nat)
+    (hnd : (d.map Prod.fst).Nodup) (hm : (e, f) ∈ d) :
+    d.foldl (fun t p => upd t p.1 p.2) t e = some f := by
+  induction d generalizing t with
+  | nil => cases hm
+  | cons p r ih =>
+    simp only [List.map_cons, List.nodup_cons] at hnd
+    simp only [List.foldl_cons]
+    rcases List.mem_cons.mp hm with h | h
+    · subst h
+      rw [foldl_upd_notin r _ e]
+      · exact upd_same t e f
+      · intro q hq hqe
+        exact hnd.1 (List.mem_map.mpr ⟨q, hq, hqe⟩)
+    · exact ih _ hnd.2 h
+
+/-- **every element reads its own entry**: after `{e: gen(d[e]) for e in d}` (a dict has distinct keys)
+the table maps every key to the function given for that key … -/
+theorem lookup_after_setAll (d : List (Nat × Nat)) (hnd : (d.map Prod.fst).Nodup)
+    (e f : Nat) (hm : (e, f) ∈ d) : ofItems d e = some f :=
+  foldl_upd_mem d emptyTab e f hnd hm
+
+/-- … and has no entry for anything else (a partial dict leaves the other elements without a callable) -/
+theorem lookup_after_setAll_absent (d : List (Nat × Nat)) (x : Nat) (h : ∀ p ∈ d, p.1 ≠ x) :
+    ofItems d x = none :=
+  foldl_upd_notin d emptyTab x h
+
+/-- `setMobility(f, phase)`: every element of the system reads the one function -/
+theorem lookup_after_setSame (n f e : Nat) (he : e < n) : constTab n f e = some f := by
+  simp [constTab, he]
+
+theorem get_put_same (s : St) (w : Which) (t : Option Tab) : (s.put w t).get w = t := by
+  cases w <;> rfl
+theorem get_put_other (s : St) (w w' : Which) (t : Option Tab) (h : w' ≠ w) :
+    (s.put w t).get w' = s.get w' := by
+  cases w <;> cases w' <;> first | rfl | exact absurd rfl h
+
+/-- `setMobility(d, phase)` forgets everything written before: the table after it is `ofItems d`
+whatever the history was -/
+theorem setAll_overrides (n : Nat) (s : St) (h : List Op) (w : Which) (d : List (Nat × Nat)) :
+    (run n s (h ++ [Op.setAll w d])).get w = some (ofItems d) := by
+  simp [run, List.foldl_append, step, get_put_same]
+
+/-- `o` writes the entry of element `e` in table `w` -/
+def Writes (w : Which) (e : Nat) : Op → Prop
+  | .setAll w' _ => w' = w
+  | .setSame w' _ => w' = w
+  | .setOne w' e' _ => w' = w ∧ e' = e
+
+/-- an op that does not write (w, e) leaves that entry alone -/
+theorem step_keeps (n : Nat) (s : St) (o : Op) (w : Which) (e : Nat) (h : ¬ Writes w e o) :
+    ((step n s o).1.get w).map (fun t => t e) = (s.get w).map (fun t => t e) := by
+  cases o with
+  | setAll w' d =>
+    have hw : w ≠ w' := fun hh => h hh.symm
+    simp [step, get_put_other _ _ _ _ hw]
+  | setSame w' f =>
+    have hw : w ≠ w' := fun hh => h hh.symm
+    simp [step, get_put_other _ _ _ _ hw]
+  | setOne w' e' f =>
+    simp only [step]
+    cases hg : s.get w' with
+    | none => rfl
+    | some t =>
+      by_cases hw : w = w'
+      · subst hw
+        have he : e ≠ e' := fun hh => h ⟨rfl, hh.symm⟩
+        simp [get_put_same, hg, upd_other _ _ _ _ he]
+      · simp [get_put_other _ _ _ _ hw]
+
+theorem run_keeps (n : Nat) (s : St) (h : List Op) (w : Which) (e : Nat)
+    (hn : ∀ o ∈ h, ¬ Writes w e o) :
+    ((run n s h).get w).map (fun t => t e) = (s.get w).map (fun t => t e) := by
+  induction h generalizing s with
+  | nil => rfl
+  | cons o r ih =>
+    have := ih (step n s o).1 (fun o' ho' => hn o' (List.mem_cons_of_mem _ ho'))
+    simp only [run, List.foldl_cons] at this ⊢
+    rw [this]
+    exact step_keeps n s o w e (hn o List.mem_cons_self)
+
+/-- **last write wins**: for every history `h1 ++ [setOne w e f] ++ h2` in which nothing after the
+`setMobility(…, element=e)` writes that entry again, element e reads `f` at the end — provided the table
+existed when the call was made (otherwise the call raises, see `setOne_on_none`). -/
+theorem last_write_wins (n : Nat) (s : St) (h1 h2 : List Op) (w : Which) (e f : Nat)
+    (hpres : ((run n s h1).get w).isSome) (hn : ∀ o ∈ h2, ¬ Writes w e o) :
+    ((run n s (h1 ++ Op.setOne w e f :: h2)).get w).map (fun t => t e) = some (some f) := by
+  have hsplit : run n s (h1 ++ Op.setOne w e f :: h2)
+      = run n (step n (run n s h1) (Op.setOne w e f)).1 h2 := by
+    simp [run, List.foldl_append]
+  rw [hsplit, run_keeps n _ h2 w e hn]
+  obtain ⟨t, ht⟩ := Option.isSome_iff_exists.mp hpres
+  simp [step, ht, get_put_same, upd_same]
+
+/-- … and every OTHER element keeps what it read before that call -/
+theorem setOne_touches_only_e (n : Nat) (s : St) (w : Which) (e f x : Nat) (hx : x ≠ e) :
+    ((step n s (Op.setOne w e f)).1.get w).map (fun t => t x) = (s.get w).map (fun t => t x) :=
+  step_keeps n s _ w x (fun hw => hx hw.2.symm)
+
+/-- last write wins, dict form: after `setMobility(d, phase)` followed by ops that do not write (w, e),
+element e still reads its own entry of `d` -/
+theorem setAll_then_keeps (n : Nat) (s : St) (h1 h2 : List Op) (w : Which) (d : List (Nat × Nat))
+    (hnd : (d.map Prod.fst).Nodup) (e f : Nat) (hm : (e, f) ∈ d) (hn : ∀ o ∈ h2, ¬ Writes w e o) :
+    ((run n s (h1 ++ Op.setAll w d :: h2)).get w).map (fun t => t e) = some (some f) := by
+  have hsplit : run n s (h1 ++ Op.setAll w d :: h2)
+      = run n (step n (run n s h1) (Op.setAll w d)).1 h2 := by
+    simp [run, List.foldl_append]
+  rw [hsplit, run_keeps n _ h2 w e hn]
+  simp [step, get_put_same, lookup_after_setAll d hnd e f hm]
+
+/-- `setMobility(d, phase, element=e)` on a phase without a table raises and changes nothing -/
+theorem setOne_on_none (n : Nat) (s : St) (w : Which) (e f : Nat) (h : s.get w = none) :
+    step n s (Op.setOne w e f) = (s, true) := by
+  simp [step, h]
+
+/-- the mobility table has priority: once a phase has one, the diffusivity table is not read -/
+theorem read_prefers_mobility (s : St) (t : Tab) (e f : Nat) (hm : s.mob = some t) (he : t e = some f) :
+    read s e = Read.mobility f := by
+  simp [MobTable.read, hm, he]
+
+theorem read_diffusivity (s : St) (t : Tab) (e f : Nat) (hm : s.mob = none) (hd : s.diff = some t)
+    (he : t e = some f) : read s e = Read.diffusivity f := by
+  simp [MobTable.read, hm, hd, he]
+
+variable {α : Type} [Field α]
+
+/-- **tracer = R·T·M of the element's OWN function** after `setMobility(d, phase)`, for every state before,
+every dict, every meaning `F` of the function ids -/
+theorem tracer_after_setAll (F : Nat → α → α) (R T c : α) (n : Nat) (s : St) (d : List (Nat × Nat))
+    (hnd : (d.map Prod.fst).Nodup) (e f : Nat) (hm : (e, f) ∈ d) :
+    tracerOf F R T c (read (step n s (Op.setAll Which.mob d)).1 e) = some (R * T * (c * F f T)) := by
+  have : read (step n s (Op.setAll Which.mob d)).1 e = Read.mobility f :=
+    read_prefers_mobility _ (ofItems d) e f rfl (lookup_after_setAll d hnd e f hm)
+  rw [this]; rfl
+
+/-- **dependence only on (T, the element's own function)**: two states — whatever their histories, whatever
+the other elements read — in which element e reads the same function report the same tracer diffusivity
+for e -/
+theorem tracer_depends_on_own_function (F : Nat → α → α) (R T c : α) (s s' : St) (e : Nat)
+    (h : read s e = read s' e) : tracerOf F R T c (read s e) = tracerOf F R T c (read s' e) := by
+  rw [h]
+
+/-- the table value is what the traced `tracer_diffusivity` multiplies out: with the raw callable values
+`m_i = F f_i T` of the functions the three elements read, the traced formula gives `tracerOf` element-wise -/
+theorem tracer_of_table [Trans α] (F : Nat → α → α) (T c0 c1 c2 : α) (f0 f1 f2 : Nat) :
+    (KawinV.Gen.C10.tracer_all T c0 (F f0 T) c1 (F f1 T) c2 (F f2 T)).map some
+      = [tracerOf F Rgas T c0 (Read.mobility f0), tracerOf F Rgas T c1 (Read.mobility f1),
+         tracerOf F Rgas T c2 (Read.mobility f2)] := by
+  simp [tracer_elementwise, KawinV.Gen.C10.mobility_all, mobility_elementwise, tracerOf,
+    KawinV.Gen.C10.mobility_e0, KawinV.Gen.C10.mobility_e1, KawinV.Gen.C10.mobility_e2]
+
+/-! #### the late-binding variant (closures sharing the comprehension variable) -/
+
+/-- in the late-binding variant EVERY key reads the entry of the LAST key of the dict -/
+theorem late_reads_last (d : List (Nat × Nat)) (p : Nat × Nat) (hl : d.getLast? = some p)
+    (e : Nat) (he : e ∈ d.map Prod.fst) : ofItemsLate d e = some p.2 := by
+  have : d.any (fun q => q.1 == e) = true := by
+    obtain ⟨q, hq, hqe⟩ := List.mem_map.mp he
+    exact List.any_eq_true.mpr ⟨q, hq, by simp [hqe]⟩
+  simp [ofItemsLate, this, hl]
+
+/-- hence it differs from the code's table as soon as two keys carry different functions: witness
+`{0: f10, 1: f11}` — element 0 reads f11 instead of f10 -/
+theorem late_binding_witness :
+    ofItemsLate [(0, 10), (1, 11)] 0 = some 11 ∧ ofItems [(0, 10), (1, 11)] 0 = some 10
+    ∧ ofItemsLate [(0, 10), (1, 11)] 1 = ofItems [(0, 10), (1, 11)] 1 := by
+  decide
+
+/-- and the reported tracer diffusivity of element 0 is R·T·M of the OTHER element's function:
+with M_10 = 1, M_11 = 100, R·T = 1 the late-binding table gives 100 where the property requires 1 -/
+theorem late_binding_tracer_witness :
+    let F : Nat → ℚ → ℚ := fun f _ => if f = 10 then 1 else 100
+    tracerOf F 1 1 1 (read ⟨some (ofItemsLate [(0, 10), (1, 11)]), none⟩ 0) = some 100
+    ∧ tracerOf F 1 1 1 (read ⟨some (ofItems [(0, 10), (1, 11)]), none⟩ 0) = some 1 := by
+  decide +kernel
+
+/-- a single function or one entry hides the difference (why the shipped tests cannot see it) -/
+theorem late_binding_same_when_constant (d : List (Nat × Nat)) (g : Nat) (hg : ∀ p ∈ d, p.2 = g)
+    (e : Nat) (he : e ∈ d.map Prod.fst) (hnd : (d.map Prod.fst).Nodup) :
+    ofItemsLate d e = ofItems d e := by
+  obtain ⟨q, hq, hqe⟩ := List.mem_map.mp he
+  have hne : d ≠ [] := List.ne_nil_of_mem hq
+  have hl : d.getLast? = some (d.getLast hne) := List.getLast?_eq_some_getLast hne
+  rw [late_reads_last d _ hl e he, hg _ (List.getLast_mem hne)]
+  have : (e, g) ∈ d := by
+    have := hg q hq
+    rcases q with ⟨a, b⟩
+    simp only at hqe this
+    subst hqe; subst this; exact hq
+  exact (lookup_after_setAll d hnd e g this).symm
+
+end table
+
 /-! ### non-vacuity: concrete data meeting the hypothesis sets -/
 
 section examples
@@ -682,6 +899,25 @@ example : usum 2 (fun _ => false) exMole ≠ 0 := by norm_num [usum, sumN, exMol
 example : exMole 0 * (-(exK 4 4)) + exMole 1 * (-(exK 5 4)) = 0
     ∧ exMole 0 * (-(exK 4 5)) + exMole 1 * (-(exK 5 5)) = 0 := by
   norm_num [exMole, exK]
+
+/-- hypothesis sets of the table theorems: a dict with distinct keys containing the entry; a history with a
+present table and a tail that does not write the entry -/
+example : ([(2, 7), (0, 5), (1, 6)].map Prod.fst).Nodup ∧ ((0, 5) : Nat × Nat) ∈ [(2, 7), (0, 5), (1, 6)] := by decide
+example : KawinV.MobTable.ofItems [(2, 7), (0, 5), (1, 6)] 0 = some 5 := by decide
+example : ((KawinV.MobTable.run 3 ⟨none, none⟩ [KawinV.MobTable.Op.setSame .mob 4]).get .mob).isSome := by decide
+example : ∀ o ∈ [KawinV.MobTable.Op.setOne .mob 1 9, KawinV.MobTable.Op.setAll .diff [(0, 3)]],
+    ¬ Writes .mob 0 o := by
+  intro o ho
+  simp only [List.mem_cons, List.not_mem_nil, or_false] at ho
+  rcases ho with h | h <;> subst h <;> simp [Writes]
+/-- `last_write_wins` on a concrete history (none/none database, the write in the middle) -/
+example : ((KawinV.MobTable.run 3 ⟨none, none⟩
+    ([KawinV.MobTable.Op.setSame .mob 4] ++ KawinV.MobTable.Op.setOne .mob 0 8 ::
+      [KawinV.MobTable.Op.setOne .mob 1 9, KawinV.MobTable.Op.setAll .diff [(0, 3)]])).get .mob).map (fun t => t 0)
+    = some (some 8) := by decide
+/-- `setOne_on_none` hypothesis: the Al-Zr database without mobility parameters starts with no table -/
+example : (⟨none, none⟩ : KawinV.MobTable.St).get .mob = none := rfl
+example : ([(0, 10), (1, 11)] : List (Nat × Nat)).getLast? = some (1, 11) ∧ 0 ∈ [(0, 10), (1, 11)].map Prod.fst := by decide
 
 end examples
 end KawinV.Props.C10
